@@ -304,6 +304,21 @@ class Source:
             cache[id(f)] = out
         return cache[id(f)]
 
+    @staticmethod
+    def call_arg(callee: Func, call: ast.Call, name: str, bound: bool = False):
+        """expression passed for parameter `name` of `callee` at `call` (by position or by keyword; `bound`: the call goes
+        through an instance, so the first parameter is the receiver); None when omitted or hidden behind */** arguments"""
+        for k in call.keywords:
+            if k.arg == name:
+                return k.value
+        ps = list(callee.params)
+        if name not in ps:
+            return None
+        i = ps.index(name) - (1 if bound else 0)
+        if 0 <= i < len(call.args) and not any(isinstance(a, ast.Starred) for a in call.args[:i + 1]):
+            return call.args[i]
+        return None
+
     def resolve_call(self, f: Func, call: ast.Call, local_types: dict | None = None):
         """Return Func|Class|str(qualified external)|None for the callee of `call` inside f."""
         fn = call.func
